@@ -57,15 +57,13 @@ Definition get_index_ok (INV:Z) (T F r:list Z) : Prop :=
 
 (* ---- join ---- *)
 (* first element of every maximal run of equal adjacent values *)
-Fixpoint run_heads (l:list Z) : list Z :=
+Fixpoint run_heads_from (prev:Z) (l:list Z) : list Z :=
   match l with
   | [] => []
-  | x :: t => match t with
-              | [] => [x]
-              | y :: _ => if x =? y then run_heads t else x :: run_heads t
-              end
+  | y :: t => if prev =? y then run_heads_from y t else y :: run_heads_from y t
   end.
-(* NB: run_heads keeps the LAST element of a run; all elements of a run are equal *)
+Definition run_heads (l:list Z) : list Z :=
+  match l with [] => [] | x :: t => x :: run_heads_from x t end.
 
 Fixpoint last_value (k:Z) (pairs:list (Z * Z)) (acc:Z) : Z :=
   match pairs with
